@@ -1,8 +1,308 @@
 /-
-C10 — property theorems (stub; see DESIGN.md §6).
+C10 — Fusion ART is the channel-wise conjunction of its modules.
+
+Model: `ArtModel/Fusion.lean` (`fusionKernel`, `fusionCfg` on top of the generic
+`Kernel` / `search` / `stepFit`).  A channel is `(K, width, gamma)`; `slice ws k v`
+is the Python slice `v[_channel_indices[k][0] : _channel_indices[k][1]]`.
+
+What is proved, for every number type that is a linearly ordered field (ℚ as
+executed, ℝ), every number of channels, all widths, all gammas, every stream, every
+batching (`partialFit_flatten`), every match-tracking mode / epsilon / reset function:
+  * activation = left-to-right sum of `a_k * gamma_k`, resonance = every channel's own test;
+  * for modules whose weight has the width of their channel (`Chan.LenOK`: FuzzyART,
+    ART2A) learning is channel-wise and every channel stores, category by category, its
+    own rule folded over the channel slices of the category's members;
+  * all channels hold the same number of categories, `W` is the concatenation of the
+    module weights (these two hold for every module, also for F07 ones);
+  * one channel with gamma = 1 = the bare module, state for state;
+  * swapping two neighbouring channels (with gammas, widths, vigilances, data columns)
+    leaves labels and counters unchanged and permutes the weights.
+
+Naming: the clauses that need `LenOK` carry the suffix `_partial` — the property
+quantifies over every elementary module type, and for the longer-weight ones the
+statement without `LenOK` is false of the code.
+
+What is NOT true of the code and therefore of the faithful model (finding F07): a
+module whose weight vector is longer than its data width (HypersphereART d+1,
+EllipsoidART 2d+1, ART1 2d, Gaussian / Bayesian / QuadraticNeuron) gets its weight cut
+to the data width, and the cut-off tail lands in the next channel:
+`fusion_long_weight_counterexample`.  The channel-wise clauses carry the explicit
+hypothesis `LenOK`; the full statement (no hypothesis) is false for the code.
 -/
-import ArtModel.Basic
+import ArtProofs.Fusion
+import ArtProofs.Kernels
 
 namespace Art.C10
+open Art Art.Fusion
+
+set_option linter.unusedSectionVars false
+
+section Core
+variable {α : Type} [Field α] [LinearOrder α] [IsStrictOrderedRing α]
+
+/-- **Activation.**  `category_choice` is Python's `sum` of `a_k * gamma_k` over the
+channels, left to right from `0` (and NaN as soon as one channel activation is NaN). -/
+theorem fusion_choice_def (chans : List (Chan α)) (W : List (List α)) (x w : List α) :
+    (fusionKernel chans).choice W x w =
+      osum (chans.zipIdx.map (fun ck =>
+        (ck.1.K.choice (W.map (slice (widths chans) ck.2)) (slice (widths chans) ck.2 x)
+          (slice (widths chans) ck.2 w)).map (· * ck.1.gamma))) := by
+  show osum (chanTerms chans noSkip W x w) = _
+  unfold chanTerms
+  congr 1
+
+/-- … hence, when every channel activation `T k` is a number, the gamma-weighted sum `Σ_k T_k γ_k`. -/
+theorem fusion_choice_sum (chans : List (Chan α)) (W : List (List α)) (x w : List α) (T : Nat → α)
+    (hT : ∀ k c, chans[k]? = some c →
+      c.K.choice (W.map (slice (widths chans) k)) (slice (widths chans) k x) (slice (widths chans) k w) =
+        some (T k)) :
+    (fusionKernel chans).choice W x w = some ((chans.zipIdx.map (fun ck => T ck.2 * ck.1.gamma)).sum) := by
+  rw [fusion_choice_def]
+  have : chans.zipIdx.map (fun ck =>
+        (ck.1.K.choice (W.map (slice (widths chans) ck.2)) (slice (widths chans) ck.2 x)
+          (slice (widths chans) ck.2 w)).map (· * ck.1.gamma)) =
+      (chans.zipIdx.map (fun ck => T ck.2 * ck.1.gamma)).map some := by
+    rw [List.map_map]
+    apply List.map_congr_left
+    intro ck hck
+    have hk : chans[ck.2]? = some ck.1 := by
+      obtain ⟨j, hj⟩ := List.getElem?_of_mem hck
+      rw [List.getElem?_zipIdx] at hj
+      cases hc : chans[j]? with
+      | none => simp [hc] at hj
+      | some c =>
+        simp only [hc, Option.map_some, Option.some.injEq] at hj
+        subst hj; simpa using hc
+    simp [hT ck.2 ck.1 hk]
+  rw [this, osum, foldl_oadd_some, zero_add]
+
+/-- **Resonance.**  The fused vigilance test passes iff every channel's own test passes
+(`th` = the channels' `rho`, one per channel). -/
+theorem fusion_match_all (chans : List (Chan α)) (mode : MT) (adjP adjM : α → α) (top : α)
+    (th : List α) (x w : List α) :
+    (fusionCfg mode adjP adjM top).passes th ((fusionKernel chans).matchv x w) = true ↔
+      ∀ (k : Nat) (c : Chan α) (rho : α), chans[k]? = some c → th[k]? = some rho →
+        passesScalar mode false rho
+          (c.K.matchv (slice (widths chans) k x) (slice (widths chans) k w)) = true := by
+  show (List.zip th (matchVec chans x w)).all _ = true ↔ _
+  rw [List.all_eq_true]
+  constructor
+  · intro h k c rho hc hr
+    apply h (rho, c.K.matchv (slice (widths chans) k x) (slice (widths chans) k w))
+    apply List.mem_of_getElem? (i := k)
+    rw [List.getElem?_zip_eq_some]
+    exact ⟨hr, by rw [matchVec, zipIdx_map_getElem?, hc]; rfl⟩
+  · intro h tv htv
+    obtain ⟨k, hk⟩ := List.getElem?_of_mem htv
+    rw [List.getElem?_zip_eq_some] at hk
+    obtain ⟨h1, h2⟩ := hk
+    rw [matchVec, zipIdx_map_getElem?] at h2
+    cases hc : chans[k]? with
+    | none => simp [hc] at h2
+    | some c =>
+      simp only [hc, Option.map_some, Option.some.injEq] at h2
+      have := h k c tv.1 hc h1
+      rw [h2] at this
+      exact this
+
+/-- match tracking lets every channel track: the new threshold vector is the channel-wise
+`_match_tracking` of the old one -/
+theorem fusion_track_all (mode : MT) (adjP adjM : α → α) (top : α) (th m : List α) (k : Nat) :
+    ((fusionCfg mode adjP adjM top).track th m)[k]? =
+      (th[k]?).bind (fun t => (m[k]?).map (fun v => trackScalar mode adjP adjM top t v)) := by
+  show ((List.zip th m).map _)[k]? = _
+  rw [List.getElem?_map, List.zip, List.getElem?_zipWith']
+  cases th[k]? <;> cases m[k]? <;> rfl
+
+/-- **Learning is channel-wise** (modules whose weight has the channel's width): channel `k`
+of the updated / new fused weight is module `k`'s own rule on the `k`-slices. -/
+theorem fusion_update_channelwise_partial (chans : List (Chan α)) (hl : ∀ c ∈ chans, c.LenOK) (x w : List α)
+    (hx : x.length = total chans) (hw : w.length = total chans) (k : Nat) (c : Chan α)
+    (hc : chans[k]? = some c) :
+    slice (widths chans) k ((fusionKernel chans).update x w) =
+      c.K.update (slice (widths chans) k x) (slice (widths chans) k w) ∧
+    slice (widths chans) k ((fusionKernel chans).newW x) = c.K.newW (slice (widths chans) k x) :=
+  ⟨fusion_update_slice chans hl x w hx hw k c hc, fusion_new_slice chans hl x hx k c hc⟩
+
+/-- **Every channel stores exactly what its module alone would compute.**  After any
+stream `xs` (any mode, epsilon, reset function), for every channel `k` and every category
+index `j`: `modules[k].W[j]` is module `k`'s rule folded over the channel-`k` slices of the
+samples labelled `j` (in presentation order, starting from its new-category rule) — and
+there is no such weight iff no sample is labelled `j`. -/
+theorem fusion_channel_states_partial {θ : Type} (chans : List (Chan α)) (hl : ∀ c ∈ chans, c.LenOK)
+    (cfg : SearchCfg (List α) θ) (th0 : θ) (veto : ArtState (List α) → List α → Nat → Bool)
+    (xs : List (List α)) (hx : ∀ x ∈ xs, x.length = total chans) (k : Nat) (c : Chan α)
+    (hc : chans[k]? = some c) (j : Nat) :
+    (chanState (widths chans) k (partialFit (fusionKernel chans) cfg th0 veto {} xs)).W[j]? =
+      foldMembers c.K (members (xs.map (slice (widths chans) k))
+        (partialFit (fusionKernel chans) cfg th0 veto {} xs).labels j) := by
+  obtain ⟨_, hW⟩ := weights_are_member_folds (fusionKernel chans) cfg th0 veto xs
+  show ((partialFit (fusionKernel chans) cfg th0 veto {} xs).W.map (slice (widths chans) k))[j]? = _
+  rw [List.getElem?_map, hW j, members_map]
+  exact foldMembers_slice chans hl k c hc _
+    (fun m hm => hx m (members_subset xs _ j m hm))
+
+/-- **All channels hold the same number of categories**, namely `n_clusters` of the
+FusionART, and share the per-category counters.  (Structural in the model: the module
+lists are the projections `chanState` of one fused list; that the real `modules[k].W`
+and counters are these projections is what the correspondence check compares.) -/
+theorem fusion_counts_equal {θ : Type} (chans : List (Chan α)) (cfg : SearchCfg (List α) θ) (th0 : θ)
+    (veto : ArtState (List α) → List α → Nat → Bool) (s : ArtState (List α)) (hs : Consistent s)
+    (xs : List (List α)) (k : Nat) :
+    (chanState (widths chans) k (partialFit (fusionKernel chans) cfg th0 veto s xs)).W.length =
+      (partialFit (fusionKernel chans) cfg th0 veto s xs).W.length ∧
+    (chanState (widths chans) k (partialFit (fusionKernel chans) cfg th0 veto s xs)).cnt.length =
+      (partialFit (fusionKernel chans) cfg th0 veto s xs).W.length :=
+  ⟨by simp [chanState], (partialFit_consistent _ cfg th0 veto s xs hs).cnt_len⟩
+
+/-- **`W` is the concatenation of the module weights**: reading the `W` property back
+from the modules returns the fused list — for every kind of module (no `LenOK` needed). -/
+theorem fusion_W_concat {θ : Type} (chans : List (Chan α)) (hne : chans ≠ [])
+    (cfg : SearchCfg (List α) θ) (th0 : θ) (veto : ArtState (List α) → List α → Nat → Bool)
+    (xs : List (List α)) :
+    fusedW (chanStates chans (partialFit (fusionKernel chans) cfg th0 veto {} xs)) =
+      (partialFit (fusionKernel chans) cfg th0 veto {} xs).W := by
+  apply fusedW_chanStates chans hne
+  apply partialFit_W_inv (fusionKernel chans) cfg th0 veto (fun w => w.length ≤ total chans) (fun _ => True)
+  · intro x w _ _; exact stored_length_le _ _
+  · intro x _; exact stored_length_le _ _
+  · simp
+  · simp
+
+/-- **One channel, gamma = 1**: `partial_fit` of the FusionART is, state for state (weights,
+counters, labels), `partial_fit` of the bare module — any mode, epsilon, reset function,
+starting state and stream. -/
+theorem fusion_single_channel_partial (c : Chan α) (hγ : c.gamma = 1) (hl : c.LenOK) (mode : MT)
+    (adjP adjM : α → α) (top rho : α) (veto : ArtState (List α) → List α → Nat → Bool)
+    (s : ArtState (List α)) (xs : List (List α)) (hs : ∀ w ∈ s.W, w.length = c.width)
+    (hx : ∀ x ∈ xs, x.length = c.width) :
+    partialFit (fusionKernel [c]) (fusionCfg mode adjP adjM top) [rho] veto s xs =
+      partialFit c.K (scalarCfg mode false adjP adjM top) rho veto s xs :=
+  single_partialFit c hγ hl mode adjP adjM top rho veto s xs hs hx
+
+/-- … and so are its predictions -/
+theorem fusion_single_channel_predict (c : Chan α) (hγ : c.gamma = 1) (W : List (List α)) (x : List α)
+    (hW : ∀ w ∈ W, w.length = c.width) (hx : x.length = c.width) :
+    stepPred (fusionKernel [c]) W x = stepPred c.K W x := by
+  unfold stepPred activations
+  congr 1
+  apply List.map_congr_left
+  intro w hw
+  exact single_choice c hγ W x w hW hx hw
+
+
+/-- **Permuting channels.**  Swapping two neighbouring channels together with their gammas,
+widths, vigilances and data columns (and handing the reset function the permuted view)
+gives the same labels and counters; the weights are the same up to the column swap.  Every
+permutation is a product of such swaps.  Ordered field: uses commutativity of the sum. -/
+theorem fusion_perm_channels_partial (chans : List (Chan α)) (i : Nat) (hi : i + 1 < chans.length)
+    (hl : ∀ c ∈ chans, c.LenOK) (mode : MT) (adjP adjM : α → α) (top : α)
+    (th : List α) (hth : th.length = chans.length)
+    (veto veto' : ArtState (List α) → List α → Nat → Bool)
+    (hv : ∀ s x c, veto' (mapState (swapCols (widths chans) i) s) (swapCols (widths chans) i x) c = veto s x c)
+    (xs : List (List α)) (hx : ∀ x ∈ xs, x.length = total chans) :
+    (partialFit (fusionKernel (swapAt i chans)) (fusionCfg mode adjP adjM top) (swapAt i th) veto' {}
+        (xs.map (swapCols (widths chans) i))).labels =
+      (partialFit (fusionKernel chans) (fusionCfg mode adjP adjM top) th veto {} xs).labels ∧
+    (partialFit (fusionKernel (swapAt i chans)) (fusionCfg mode adjP adjM top) (swapAt i th) veto' {}
+        (xs.map (swapCols (widths chans) i))).cnt =
+      (partialFit (fusionKernel chans) (fusionCfg mode adjP adjM top) th veto {} xs).cnt ∧
+    (partialFit (fusionKernel (swapAt i chans)) (fusionCfg mode adjP adjM top) (swapAt i th) veto' {}
+        (xs.map (swapCols (widths chans) i))).W =
+      (partialFit (fusionKernel chans) (fusionCfg mode adjP adjM top) th veto {} xs).W.map
+        (swapCols (widths chans) i) := by
+  have h := perm_partialFit chans i hi hl mode adjP adjM top th hth veto veto' hv {} xs (by simp) hx
+  have h0 : mapState (swapCols (widths chans) i) ({} : ArtState (List α)) = {} := rfl
+  rw [h0] at h
+  rw [h]
+  exact ⟨rfl, rfl, rfl⟩
+
+/-- … and the permuted model predicts the same category for the permuted query -/
+theorem fusion_perm_predict_partial (chans : List (Chan α)) (i : Nat) (hi : i + 1 < chans.length)
+    (hl : ∀ c ∈ chans, c.LenOK) (W : List (List α)) (x : List α)
+    (hW : ∀ w ∈ W, w.length = total chans) (hx : x.length = total chans) :
+    stepPred (fusionKernel (swapAt i chans)) (W.map (swapCols (widths chans) i)) (swapCols (widths chans) i x) =
+      stepPred (fusionKernel chans) W x := by
+  unfold stepPred
+  rw [(perm_sim chans i hi hl MT.plus id id 0).activations W x hW hx]
+
+end Core
+
+/-! ### F07: a module whose weight is longer than its channel -/
+
+/-- a module in the style of HypersphereART: weight = centre ++ [radius] -/
+def longKernel : Kernel (List Rat) (List Rat) Rat Rat :=
+  { choice := fun _ _ _ => some 0, matchv := fun _ _ => 0, update := fun _ w => w, newW := fun x => x ++ [0] }
+
+def longChans : List (Chan Rat) := [⟨longKernel, 2, 1/2⟩, ⟨fuzzyKernel (1/4) 1 1, 2, 1/2⟩]
+
+/-- **Counterexample to the unrestricted channel-wise clause (F07).**  Sample
+`[1/4, 1/2 | 1/10, 9/10]`: the first module's own new weight is `[1/4, 1/2, 0]` but channel 0
+stores `[1/4, 1/2]`, and channel 1 stores `[0, 1/10]` instead of the FuzzyART weight
+`[1/10, 9/10]` — exactly what the real FusionART([HypersphereART, FuzzyART]) does. -/
+theorem fusion_long_weight_counterexample :
+    slice (widths longChans) 0 ((fusionKernel longChans).newW [1/4, 1/2, 1/10, 9/10]) = [1/4, 1/2] ∧
+    longKernel.newW (slice (widths longChans) 0 [1/4, 1/2, 1/10, 9/10]) = [1/4, 1/2, 0] ∧
+    slice (widths longChans) 1 ((fusionKernel longChans).newW [1/4, 1/2, 1/10, 9/10]) = [0, 1/10] ∧
+    (fuzzyKernel (1/4 : Rat) 1 1).newW (slice (widths longChans) 1 [1/4, 1/2, 1/10, 9/10]) = [1/10, 9/10] := by
+  decide +kernel
+
+/-- the long module violates the hypothesis of the channel-wise theorems -/
+theorem fusion_long_weight_not_LenOK : ¬ (⟨longKernel, 2, 1/2⟩ : Chan Rat).LenOK := by
+  intro h
+  have := h.2 [0, 0] rfl
+  simp [longKernel] at this
+
+/-! ### FuzzyART and ART2-A channels satisfy `LenOK` -/
+section LenOK
+variable {α : Type} [Field α] [LinearOrder α] [IsStrictOrderedRing α]
+
+theorem fuzzy_LenOK (alpha beta d gamma : α) (width : Nat) :
+    (⟨fuzzyKernel alpha beta d, width, gamma⟩ : Chan α).LenOK := by
+  constructor
+  · intro x w hx hw
+    simp [fuzzyKernel, fuzzyUpdate, vadd, smul, vmin, hx, hw]
+  · intro x hx
+    simpa [fuzzyKernel, fuzzyNew] using hx
+
+theorem art2_LenOK (alpha beta gamma : α) (width : Nat) :
+    (⟨art2Kernel alpha beta, width, gamma⟩ : Chan α).LenOK := by
+  constructor
+  · intro x w hx hw
+    simp [art2Kernel, art2Update, vadd, smul, hx, hw]
+  · intro x hx
+    simpa [art2Kernel] using hx
+
+end LenOK
+
+/-! ### Non-vacuity: concrete runs over ℚ (FuzzyART channels, rho = 3/4, alpha = 1/4, beta = 1) -/
+private def cA : Chan Rat := ⟨fuzzyKernel (1/4) 1 1, 2, 1/4⟩
+private def cB : Chan Rat := ⟨fuzzyKernel (1/4) 1 1, 2, 3/4⟩
+private def cfgQ : SearchCfg (List Rat) (List Rat) := fusionCfg .plus (· + 0) (· - 0) 0
+private def data : List (List Rat) := [[0, 1, 0, 1], [1, 0, 1, 0], [1/4, 3/4, 0, 1], [0, 1, 1, 0], [1/8, 7/8, 1/8, 7/8]]
+private def runAB := partialFit (fusionKernel [cA, cB]) cfgQ [3/4, 3/4] noVeto {} data
+private def runBA := partialFit (fusionKernel [cB, cA]) cfgQ [3/4, 3/4] noVeto {} (data.map (swapCols [2, 2] 0))
+
+-- three categories; the last sample is absorbed by category 0; both channels learn their own slices
+example : runAB.labels = [0, 1, 0, 2, 0] := by decide +kernel
+example : (chanState [2, 2] 0 runAB).W = [[0, 3/4], [1, 0], [0, 1]] := by decide +kernel
+example : (chanState [2, 2] 1 runAB).W = [[0, 7/8], [1, 0], [1, 0]] := by decide +kernel
+example : fusedW (chanStates [cA, cB] runAB) = runAB.W := by decide +kernel
+-- the permuted FusionART on the permuted columns gives the same labels
+example : runBA.labels = runAB.labels := by decide +kernel
+example : runBA.W = runAB.W.map (swapCols [2, 2] 0) := by decide +kernel
+-- hypotheses of the theorems are satisfiable: widths, gammas summing to 1, LenOK
+example : ∀ c ∈ [cA, cB], c.LenOK := by
+  intro c hc
+  simp only [List.mem_cons, List.mem_nil_iff, or_false] at hc
+  rcases hc with rfl | rfl <;> exact fuzzy_LenOK _ _ _ _ _
+example : ∀ x ∈ data, x.length = total [cA, cB] := by decide
+-- one channel with gamma = 1 against the bare module
+example : (partialFit (fusionKernel [⟨fuzzyKernel (1/4 : Rat) 1 1, 2, 1⟩]) cfgQ [3/4] noVeto {}
+    [[0, 1], [1, 0], [1/4, 3/4]]).labels =
+    (partialFit (fuzzyKernel (1/4 : Rat) 1 1) (scalarCfg .plus false (· + 0) (· - 0) 0) (3/4) noVeto {}
+      [[0, 1], [1, 0], [1/4, 3/4]]).labels := by decide +kernel
+-- the fused activation is the gamma-weighted sum: 1/4 * (1/(1/4+1)) + 3/4 * (1/(1/4+1)) = 4/5
+example : (fusionKernel [cA, cB]).choice [] [0, 1, 0, 1] [0, 1, 0, 1] = some (4/5) := by decide +kernel
 
 end Art.C10
